@@ -88,6 +88,7 @@ type Catalogue struct {
 	convRead  []convRef              // nasConvert helpers usable on shared IEs
 	autoRT    map[string][2]string   // type key -> marshal / unmarshal method names
 	Cost      []int                  // yields of one sequential execution per catalogue entry (from the probe step; nil if not probed)
+	Hot       []bool                 // the entry executed a hot site (package-level state, sync, atomic) in the probe step
 }
 
 type methodRef struct {
@@ -250,6 +251,7 @@ var ProbeFile string
 type probeFile struct {
 	Samples []probeSample `json:"samples"`
 	Cost    []int         `json:"cost"`
+	Hot     []bool        `json:"hot"`
 }
 
 type probeSample struct {
@@ -303,6 +305,7 @@ func (c *Catalogue) WriteProbe(path string) error {
 		out.Samples = append(out.Samples, probeSample{s.Name, hex.EncodeToString(s.Data), s.OK})
 	}
 	out.Cost = c.Cost
+	out.Hot = c.Hot
 	b, err := json.Marshal(out)
 	if err != nil {
 		return err
@@ -320,6 +323,7 @@ func (c *Catalogue) loadProbe(path string) error {
 		return err
 	}
 	c.Cost = pf.Cost
+	c.Hot = pf.Hot
 	for i, s := range pf.Samples {
 		d, err := hex.DecodeString(s.Data)
 		if err != nil {
